@@ -203,6 +203,17 @@ CLAIMED = {
              "code.",
         note="Numba bounds checker is the detector; TLC holds contracts and call-shape validation; separate numba cache "
              "for the bounds-checked runs"),
+    "C14": dict(
+        level="model_checking", design="3/C14",
+        technique="TLA+ spec ValueSemantics.tla: heap model (buffers, versions, ownership) of pure operations, in-place "
+                  "mutations of results and default constructors, model-checked by TLC (OperandsUnchanged, NoSharing, "
+                  "DefaultFresh, ReapplySame); every TLC history over the operation catalogue replayed on the real classes "
+                  "with byte / identity / memory-extent fingerprints and np.shares_memory; constructor and Modern Robotics "
+                  "arguments fingerprinted around the call",
+        text="Exhaustive over the catalogue (operators, copies, accessors, helpers of tm / Screw / Wrench) x mutation routes x "
+             "default kinds to the modelled history shape; argument arrays of Arm / SP constructors and all 47 MR functions "
+             "checked for byte equality after the call.",
+        note="TLC for the history space; fingerprints computed by the harness; exclusions exactly as the property lists them"),
 }
 
 NOT_YET = "check not built yet in this round (planned: see DESIGN.md section 3)"
